@@ -391,6 +391,21 @@ def check_c17(run):
         sessions.append({"id": 400000 + i, "kind": "capacity", "min": mn, "max": mx, "model": rng.randint(1, 4), "rules": [],
                          "gated": rng.random() < 0.5, "checkv": False, "gatehooks": False, "timeout": 6,
                          "script": [{"op": "burst", "reqs": reqs}, {"op": "quiesce"}, {"op": "fill", "reqs": fill}, {"op": "quiesce"}]})
+    # big pools: "pool sizes from 1/2 upwards" - more instances than any machine word has bits; exactly max requests sit
+    # inside a rule at the same moment (`fill`), twice, so that every instance is taken, handed back and taken again
+    for i, (mn, mx) in enumerate([(2, 66), (65, 70)] if quick else [(2, 66), (65, 70), (1, 130), (64, 65), (33, 129), (3, 257)]):
+        q = 0
+        script = []
+        for b in range(2):
+            fill = []
+            for k in range(mx):
+                q += 1
+                r = call_for("ExecuteSelectedRules", ["own"], 1)
+                r.update(q=q, keys=ISO_KEYS + ["kd"], fail="", noret=False)
+                fill.append(r)
+            script += [{"op": "fill", "reqs": fill}, {"op": "quiesce"}]
+        sessions.append({"id": 500000 + i, "kind": "capacity", "min": mn, "max": mx, "model": 1, "rules": [], "gated": False,
+                         "checkv": False, "gatehooks": False, "timeout": 20, "script": script})
     if getattr(run, "collect", None) is not None:
         run.collect["capacity"] = sessions
         return 0
